@@ -2,7 +2,8 @@
 from checks import gcmon_common as C
 
 THEOREMS = ["Mmtk.Heap.reachFrom_iff", "Mmtk.Heap.reach_iff", "Mmtk.Heap.reachAux_sound", "Mmtk.Heap.reachAux_complete",
-            "Mmtk.Heap.reach_mono_roots", "Mmtk.Heap.reach_drop_root", "Mmtk.Heap.applyOp_wf", "Mmtk.Heap.wf_empty"]
+            "Mmtk.Heap.reach_mono_roots", "Mmtk.Heap.reach_drop_root", "Mmtk.Heap.applyOp_wf", "Mmtk.Heap.wf_empty",
+            "Mmtk.Heap.checkSnap_sound", "Mmtk.Heap.strictIncr_pairwise"]
 META = {
     "text": "Shadow-heap model (Model/Heap.lean) + snapshot monitor `gcm` (Driver/GCMon): the executable worklist closure `reach` is proved sound and complete w.r.t. the inductive reachability relation for every heap (fuel = #objects + 1), monotone in the roots, every mutator op preserves well-formedness, and a snapshot accepted by `checkSnap` lists exactly the reachable ids once each with the shadow heap's size / payload hash / fields-as-ids / root slots. Real collections: generated mutator programs (sharing hubs, cycles, 10^3-10^4-long lists, wide objects, old->young stores, several mutators, user + natural GCs) run on a real MMTk instance (hx_gc, all 11 plans x {1,4} workers); after every pause the real heap is walked from the real roots and compared by the Lean monitor; an independent Python oracle re-evaluates the comparison.",
     "note": "Level: proof of the monitor's model, partial w.r.t. the code (the collector itself is sampled, not proved; the abstract algorithm theorems go in the section `algorithm` of Props/C01.lean). Known defects are kept out of the random stream and reported by dedicated corpus programs under stable keys gc:nonmoving-default-trace, gc:nonmoving-gen-lost, gc:compressor-immortal-fwd, gc:markcompact-empty, gc:markcompact-nonmoving-dead.",
